@@ -20,20 +20,13 @@ CHECKS = {
             T_TIE, "Coq proof (lia over Euclidean division) about a model regenerated from the Python source; differential run validates the translator",
             "DESIGN.md 3 C12"),
     "C03": (True,
-            "Theorems (all slice grids, all fragment sizes): the encoder's fragment split always satisfies the validator's fragment "
-            "continuity rule (zero-slice first fragment, raster-contiguous offsets, never more than the remaining slices, complete at the end) "
-            "and consecutive/legal numbering satisfies the numbering rule. PARTIAL: the end-to-end claim (stream accepted, decoded pictures carry "
-            "the configured parameters and numbers) for the whole configuration space is decided by the differential run encoder -> "
-            "serialiser -> validator over random configurations, not by a theorem.",
-            C_TIE + "Fragment-split model compared with make_picture_data_units on a grid; field validity inside data units is outside the model.",
+            "Theorems: the encoder's fragment split satisfies the validator's continuity rule for every slice grid and fragment size; lossless HQ length fields always fit 8 bits (arithmetic re-extracted from make_transform_data_hq_lossless each run); C03_structure_partial: a unit list of the shape the encoder produces (header, per picture a picture unit or [first fragment; split...], end of sequence; consecutive numbers mod 2^32, even first field; autofilled offsets) satisfies seven of the validator model's ten rules and is accepted (via C01_iff) given version_ok and the two ordering patterns as hypotheses. PARTIAL: end-to-end acceptance and the decoded parameters/numbers over the configuration space are decided by the differential run encoder -> serialiser -> validator.",
+            C_TIE + "Fragment-split model compared with make_picture_data_units on a grid; Gen/EncLossless is tie T (statement-level extraction); field validity inside data units is outside the model.",
             "Coq proof of the fragment-split/continuity refinement + differential encoder->validator run over a random configuration space",
             "DESIGN.md 3 C03"),
     "C05": (True,
-            "Theorems: the picture-number lists of the picture_numbers generator (regenerated from the source on every run) and any "
-            "consecutive numbering with an even first field satisfy the validator's numbering rule. PARTIAL: conformance, unique names, and "
-            "'encoding variants decode to the pictures of the plain encoding / exact mid-grey / documented numbers' are decided by running every "
-            "registered generator on random small configurations through the real serialiser and validator.",
-            T_TIE + "Metamorphic equivalences are checked on the implementation only (differential run).",
+            "Theorems: picture-number literals of the picture_numbers generator (regenerated from source) and any legal consecutive numbering satisfy the validator's rule; metamorphic lemmas composed from the decoder models: slice padding bits irrelevant (all slices of a picture, LD and HQ; from C08), padding/auxiliary units and repeated identical headers keep verdict and observed picture numbers (partial: ordering patterns as hypothesis), absent next_parse_offset irrelevant, concatenation = concatenation (C10), alternative header encodings decode identically (C15). PARTIAL: prefix bytes, extended-transform flags, slice size scaler and picture CONTENT under stream edits, conformance and name uniqueness are decided by running every registered generator through the real serialiser and validator.",
+            T_TIE + "Metamorphic lemmas are over the hand models of C08/C10/C15 (tie C).",
             "Coq proof over source-extracted test-case constants + differential run of all decoder test case generators",
             "DESIGN.md 3 C05"),
     "C24": (True,
@@ -169,11 +162,8 @@ CHECKS = {
             "Coq proofs on a hand model over translated arithmetic + 560 correspondence cases + full-stack oracle re-checking minimality by exhaustive re-quantisation",
             "DESIGN.md 3 C04/C14"),
     "C04": (True,
-            "Theorems: DC prediction round trip on any band, index 0 is the identity both ways, truncated-trailing-zero coefficient blocks read back exactly, "
-            "encoder gather and decoder scatter are inverse (from the C13 cover lemmas), lossless and index-0 lossy slices round-trip with 8-bit length fields, "
-            "and the composed chains decode(encode p) = p. PARTIAL: the wavelet round trip (C11's theorem) enters the composition as a Section hypothesis and the "
-            "byte container around slices is covered by the full-stack oracle (exact picture equality through the real validator).",
-            C_TIE + "Uses Gen/* (tie T) and Proofs/SliceSizesProofs.v.",
+            'Theorems: DC prediction round trip, index 0 identity, truncated-trailing-zero blocks, gather/scatter inverse (C13 cover lemmas), lossless and index-0 slices round-trip with 8-bit length fields, and C04_end_to_end_{hq_lossless,hq_lossy_q0,ld_lossy_q0}: with the CONCRETE transform of C11 (filters as variables), for all depths, slice grids, picture sizes and in-range pictures, decode_model(encode p) = p -- the only remaining hypothesis is that the quantisation matrix has an entry for every level/orientation present. PARTIAL: the byte container around the slices is covered by the full-stack oracle (exact picture equality through the real validator).',
+            C_TIE + "Uses Gen/* (tie T), Proofs/SliceSizesProofs.v and the C11 development; the adaptor between the two models is tied by its own correspondence cases against picture_encode/picture_decode.",
             "Coq proofs on hand model over translated arithmetic + full-stack lossless / qindex-0 round-trip oracle",
             "DESIGN.md 3 C04/C14"),
     "C08": (True,
